@@ -23,7 +23,8 @@ RULE = ("Hypothesis draws a naming program: a dataclass / NamedTuple / TypedDict
         "dyn(class_aliaser(alias or name)) (class aliaser skipped under override=False, dynamic one always applied), checked in "
         "every view: deserialize accepts data keyed by expected names and answers any other candidate spelling (raw name, alias, "
         "class-aliased, dyn-aliased) with 'missing property' at the expected name + 'unexpected property' at the given one; keys of "
-        "serialize; properties / required / dependentRequired of both schemas; loc of a type error and of the validator's get_alias path; "
+        "serialize; properties / required / dependentRequired of both schemas; loc of a type error, of the validator's get_alias path, of two failing field validators and of a "
+        "dependent_required violation; "
         "GraphQL object and input field names and a resolver argument name under graphql_schema(aliaser=dyn).  Non-trivial: >= 1 field whose "
         "candidate spellings (name, alias, class-aliased, dyn-aliased, both) are pairwise distinct.  Distinct = hash(program).")
 ASSUMPTIONS = ["json_schema.md: 'Dynamic aliaser ignores override=False'", "GraphQL view only when every expected name is a valid GraphQL name"]
@@ -62,6 +63,7 @@ def strategy_(draw, tier):
         "wrap": pick(draw, [None, None, "nested", "flatten"]) if flavor == "dataclass" else pick(draw, [None, "nested"]),
         "dep_req": False, "validator": flavor == "dataclass" and chance(draw, 0.5),
     }
+    prog["field_validators"] = flavor == "dataclass" and len(fields) >= 2 and chance(draw, 0.4)
     if prog["via"] == "camel_case":
         prog["dyn"] = "camel"
     defaulted = [f["n"] for f in fields if f["default"]]
@@ -99,6 +101,10 @@ def render(p) -> str:
         if p["validator"]:
             first = order[0]["n"]
             lines += ["    @validator", "    def check(self):", f"        if self.{first} == 13:", f"            yield get_alias(self).{first}, 'thirteen'"]
+        if p.get("field_validators"):
+            # two field validators (each discards its field): both fail on 14, both errors sit under the field's external name
+            for f in order[:2]:
+                lines += [f"    @validator({f['n']!r})", f"    def check_{f['n']}(self):", f"        if self.{f['n']} == 14:", "            raise ValidationError('fourteen')"]
     elif p["flavor"] == "namedtuple":
         lines.append("class C(NamedTuple):")
         for f in order:
@@ -242,6 +248,33 @@ def _evaluate(p, ctx, b, src):
                 viol("validator_loc", f"get_alias path reported at {[x['loc'] for x in e.errors]}")
         except Exception as e:
             viol("validator_loc", f"crash {e!r}", exc=type(e).__name__)
+    if p.get("field_validators"):
+        order = sorted(fields, key=lambda f: 1 if f["default"] else 0)
+        d14 = dict(good)
+        for f in order[:2]:
+            d14[exp[f["n"]]] = 14
+        try:
+            deserialize(tp, outer(d14), **kw)
+            viol("validator_loc", "field validators did not fail")
+        except ValidationError as e:
+            want = sorted(inner_loc([exp[f["n"]]]) for f in order[:2])
+            if sorted(x["loc"] for x in e.errors) != want:
+                viol("validator_loc", f"two failing field validators reported at {[x['loc'] for x in e.errors]}, expected {want}", form="two_field_validators")
+        except Exception as e:
+            viol("validator_loc", f"crash {e!r}", exc=type(e).__name__)
+    if p["dep_req"]:
+        # the requiring property is given, the required one is not: located at the external name of the missing one
+        a_, b_ = p["dep_req"]
+        dreq = {k: v for k, v in good.items() if k != exp[b_]}
+        dreq[exp[a_]] = 1
+        try:
+            deserialize(tp, outer(dreq), **kw)
+            viol("error_loc", "dependent_required violation accepted", form="dependent_required")
+        except ValidationError as e:
+            if [x["loc"] for x in e.errors] != [inner_loc([exp[b_]])]:
+                viol("error_loc", f"dependent_required error located at {[x['loc'] for x in e.errors]}, expected {[inner_loc([exp[b_]])]}", form="dependent_required")
+        except Exception as e:
+            viol("error_loc", f"crash {e!r}", exc=type(e).__name__)
     # 2. serialization keys
     try:
         if p["flavor"] == "typeddict":
